@@ -9,7 +9,6 @@ from facts import tokens, fmt, short, walk, strip_sites, op_place, const_int
 # thorough tier: release configuration only — the dev-configuration pass reports the debug_assert! contract checks of the
 # core helpers (unchecked read/write, BitRange alignment, View::try_from_*), which are reachable panic sites whose discharge is
 # the call-site contract work listed in DESIGN.md 13.7; an untriaged pass is not registered
-THOROUGH_CFGS = ["release"]
 CRATES = ["sciparse", "scion_protobuf"]
 EXPLANATION = (
     "Side clauses of 'validates iff authentic' that are visible in code shape, on rustc MIR. (GS) SignedMessage::validate "
